@@ -180,7 +180,12 @@ impl Response {
                 let (name, value) = line_without_crlf
                     .split_once(':')
                     .ok_or(ResponseError::Response)?;
-                headers.add(HeaderType::from(name), value.trim_start());
+                // Only the optional whitespace of RFC 7230 (SP / HTAB) is removed: `str::trim_start` would
+                //   also remove Unicode white space such as U+00A0, which is part of the value.
+                headers.add(
+                    HeaderType::from(name),
+                    value.trim_start_matches(|c| c == ' ' || c == '\t'),
+                );
             }
         }
 
